@@ -19,6 +19,7 @@ import CorgiProofs.RealClosures
 import CorgiProofs.LinearHeap
 import CorgiProofs.Adjoint
 import CorgiProofs.AdjointMatmul
+import CorgiProofs.AdjointConv
 
 namespace Corgi
 
@@ -286,6 +287,45 @@ theorem C02_matmul2d_right_closure_is_transpose [AddLaws S] [MulLaws S] [CommLaw
 example : (⟨[2, 3], [1, 2, 3, 4, 5, 6]⟩ : Tensor ℝ).WF ∧ (⟨[2, 2], [1, 0, 0, 1]⟩ : Tensor ℝ).WF := by
   refine ⟨⟨?_, ?_⟩, ⟨?_, ?_⟩⟩ <;> simp [prod]
 
+/-- **convolution, first stage (`unroll_blocks`): the closure is the transpose of the forward map**, per
+    image and with overlapping windows.  Forward slice operation (`unrollOp`, the one `unrollBlocks` runs on
+    every image): a gather through `unrollIdx`.  Closure slice operation (`rollOp true`, the one the stored
+    closure runs through `rollBlocks … true`): a scatter-add through `rollIdx`.  Whenever both return, over a
+    commutative ring, `⟨unroll(img), xs⟩ = ⟨img, roll(xs)⟩`.  PARTIAL: per image slice (the batch loop
+    `slicedOp` is not lifted) and for this stage only (`expand_conv`'s permutation and the product in between
+    are the matmul / reshape cases). -/
+theorem C02_unroll_closure_is_transpose [AddLaws S] [MulLaws S] [CommLaws S]
+    (depth rows cols sr sc fr fc count cCount : Nat) (img xs U B : List S)
+    (himg : img.length = depth * rows * cols) (hxs : xs.length = count * (fr * fc) * depth)
+    (hin : ∀ o, o < count * (fr * fc) * depth → unrollIdx cols rows depth sr sc fr fc cCount o < depth * rows * cols)
+    (hU : unrollOp cols rows depth sr sc fr fc cCount (count * (fr * fc) * depth) [img] = .ok U)
+    (hB : rollOp true depth rows cols sr sc fr fc count cCount [xs] = .ok B) :
+    dot U xs = dot img B :=
+  unroll_roll_slice_adjoint depth rows cols sr sc fr fc count cCount img xs U B himg hxs hin hU hB
+
+/-- the read position of `unroll_blocks` and the write position of `roll_blocks` are the same function -/
+theorem C02_unroll_roll_same_index (cols rows depth sr sc fr fc cCount o : Nat) :
+    unrollIdx cols rows depth sr sc fr fc cCount o = rollIdx depth rows cols sr sc fr fc cCount o :=
+  unrollIdx_eq_rollIdx cols rows depth sr sc fr fc cCount o
+
+/-- non-vacuity: a 1×1×3 image, 1×2 filter, stride 1 (two overlapping windows) meets every hypothesis -/
+example : ∃ U B : List ℝ,
+    (∀ o, o < 2 * (1 * 2) * 1 → unrollIdx 3 1 1 1 1 1 2 2 o < 1 * 1 * 3) ∧
+    unrollOp 3 1 1 1 1 1 2 2 (2 * (1 * 2) * 1) [([1, 2, 3] : List ℝ)] = .ok U ∧
+    rollOp true 1 1 3 1 1 1 2 2 2 [([1, 1, 1, 1] : List ℝ)] = .ok B := by
+  have hin : ∀ o, o < 2 * (1 * 2) * 1 → unrollIdx 3 1 1 1 1 1 2 2 o < 1 * 1 * 3 := by
+    intro o ho
+    have : o = 0 ∨ o = 1 ∨ o = 2 ∨ o = 3 := by omega
+    rcases this with rfl | rfl | rfl | rfl <;> decide
+  refine ⟨[1, 2, 2, 3], rollPure (rollIdx 1 1 3 1 1 1 2 2) [1, 1, 1, 1] 0 (List.replicate (1 * 1 * 3) zero), hin, ?_, ?_⟩
+  · simp [unrollOp, tabulateM, getR, unrollIdx, bind, Except.bind, pure, Except.pure]
+  · rw [rollOp]
+    simp only [List.length_cons, List.length_nil]
+    rw [if_neg (by decide), List.take_of_length_le (by simp), rollLoop_ok]
+    intro i hi
+    rw [List.length_replicate, Nat.zero_add, ← unrollIdx_eq_rollIdx]
+    exact hin i (by simpa using hi)
+
 end Corgi
 
 #print axioms Corgi.exHeap_shapeOK
@@ -295,3 +335,5 @@ end Corgi
 #print axioms Corgi.C02_matmul_kernel_is_transpose_right
 #print axioms Corgi.C02_matmul2d_left_closure_is_transpose
 #print axioms Corgi.C02_matmul2d_right_closure_is_transpose
+#print axioms Corgi.C02_unroll_closure_is_transpose
+#print axioms Corgi.C02_unroll_roll_same_index
